@@ -118,3 +118,19 @@ Fixpoint some_pivot_gives (n s lo hi : N) (busy : list N) (port : N) (k : nat) :
       | _ => some_pivot_gives n s lo hi busy port k'
       end
   end.
+
+(* ---- the refiller's first round, as far as the count check needs it (deepening round 3) ----
+   connection_pool.rs start_filling with PoolSize::PerShard(per): for every shard the refiller starts
+   `per - shard_conns.len()` openings through the shard-aware port; when the first round starts a node's
+   pool holds exactly its first connection (opened through the plain port because the pool was empty),
+   on the shard [f] the node chose.  [firsts] = that shard for every node.  All nodes draw from the
+   same local ports, so the runs for one shard add up over the nodes. *)
+Definition runs_for_shard (per : nat) (firsts : list N) (s : N) : nat :=
+  fold_left (fun a f => (a + (per - (if N.eqb f s then 1 else 0)))%nat) firsts O.
+
+(* the interval the number of shard-aware connections of shard [s] must lie in: [pre] = ports held
+   by the harness for the whole scenario, [busy] = ports found busy from outside when it started
+   (unavailable for an unknown part of it) *)
+Definition shard_count_bounds (n lo hi : N) (per : nat) (firsts pre busy : list N) (s : N) : nat * nat :=
+  let pivots := seq 0 (runs_for_shard per firsts s) in
+  (List.length (open_many n s lo hi pivots (pre ++ busy)), List.length (open_many n s lo hi pivots pre)).
